@@ -14,7 +14,10 @@
 (*   U  instance.unlock()              release                             *)
 (* Request kinds: "step" (run-step), "steps" (run-steps, N steps),         *)
 (* "stream" (stream-steps: until the stop time; the client may go away     *)
-(* after Abort[r] results).                                                *)
+(* after Abort[r] results), "err" (any of the three with a body the        *)
+(* handler rejects: malformed JSON, missing settings / numberSteps - the   *)
+(* request fails either before it touches the lock or after taking it, and *)
+(* then it must release it without stepping).                              *)
 (* Dev = {} is the intended protocol; members of Dev are named deviations. *)
 (***************************************************************************)
 EXTENDS Integers, Sequences, FiniteSets, TLC, Json
@@ -39,6 +42,8 @@ VARIABLES lock,        \* the advisory lock flag of the session
 vars == <<lock, clock, log, pc, loc, got, left, holds, sched>>
 core == <<lock, clock, log, pc, loc, got, left, holds>>
 
+Err(r) == Kind[r] = "err"
+AfterLock(r) == IF Err(r) THEN "unlock" ELSE "read"       \* a request with a bad body fails right after taking the lock
 CheckThenLock == "D14b_check_then_lock" \in Dev
 Locks(r) == Kind[r] # "step" \/ "D14b_step_nolock" \notin Dev
 
@@ -53,14 +58,18 @@ Did(r) == sched' = Append(sched, r)
 \* intended: atomic test-and-set
 TryLock(r) == /\ pc[r] = "try"
               /\ IF lock THEN pc' = [pc EXCEPT ![r] = "refused"] /\ UNCHANGED <<lock, holds>>
-                         ELSE lock' = TRUE /\ holds' = [holds EXCEPT ![r] = TRUE] /\ pc' = [pc EXCEPT ![r] = "read"]
+                         ELSE lock' = TRUE /\ holds' = [holds EXCEPT ![r] = TRUE] /\ pc' = [pc EXCEPT ![r] = AfterLock(r)]
               /\ UNCHANGED <<clock, log, loc, got, left>> /\ Did(r)
+\* a bad body detected before the lock is touched: the request ends without any effect
+Early(r) == /\ Err(r) /\ pc[r] \in {"try", "check"}
+            /\ pc' = [pc EXCEPT ![r] = "done"]
+            /\ UNCHANGED <<lock, clock, log, loc, got, left, holds>> /\ Did(r)
 \* deviation: check now, lock later (or never, for run-step)
 Check(r) == /\ pc[r] = "check"
             /\ pc' = [pc EXCEPT ![r] = IF lock THEN "refused" ELSE IF Locks(r) THEN "take" ELSE "read"]
             /\ UNCHANGED <<lock, clock, log, loc, got, left, holds>> /\ Did(r)
 Take(r) == /\ pc[r] = "take" /\ lock' = TRUE /\ holds' = [holds EXCEPT ![r] = TRUE]
-           /\ pc' = [pc EXCEPT ![r] = "read"]
+           /\ pc' = [pc EXCEPT ![r] = AfterLock(r)]
            /\ UNCHANGED <<clock, log, loc, got, left>> /\ Did(r)
 
 Aborted(r) == Kind[r] = "stream" /\ Abort[r] > 0 /\ Len(got[r]) >= Abort[r]
@@ -86,7 +95,7 @@ Unlock(r) == /\ pc[r] = "unlock"
              /\ pc' = [pc EXCEPT ![r] = "done"]
              /\ UNCHANGED <<clock, log, loc, got, left>> /\ Did(r)
 
-Step(r) == TryLock(r) \/ Check(r) \/ Take(r) \/ Read(r) \/ Write(r) \/ Unlock(r)
+Step(r) == TryLock(r) \/ Early(r) \/ Check(r) \/ Take(r) \/ Read(r) \/ Write(r) \/ Unlock(r)
 Next == \E r \in Reqs : Step(r)
 Spec == Init /\ [][Next]_vars
 
@@ -106,7 +115,7 @@ ClockExact == Quiescent => clock = 1 + Len(log)
 \* (5) the lock is released whenever the requests have ended
 Released == Quiescent => lock = FALSE
 \* a refused request produced nothing
-RefusedNothing == \A r \in Reqs : pc[r] = "refused" => got[r] = <<>>
+RefusedNothing == \A r \in Reqs : (pc[r] = "refused" \/ Err(r)) => got[r] = <<>>
 
 View == core
 Outcome == [sched |-> sched, pc |-> pc, got |-> got, clock |-> clock, lock |-> lock, log |-> log]
